@@ -111,6 +111,35 @@ static void *creator_ext(void *a)
             create_one(&T[i]);
     return NULL;
 }
+/* ---- descriptors of tasklets (option desc=1): an external thread creates a
+ * burst of tasklets and frees them after they ran (their descriptors go back
+ * through the external-thread path of the memory pool), then creates tasklets
+ * that stay allocated (queued in a pool nobody serves) while the ULTs get their
+ * stacks: a live descriptor must not lie inside a live stack. */
+#define MAXD 12
+#define DESC_BYTES 64
+static ABT_pool g_hold;
+static ABT_thread g_burst[64], g_dlive[MAXD];
+static int g_nburst, g_ndlive;
+static volatile int g_burst_done, g_dran;
+static void burst_fn(void *a)
+{
+    (void)a;
+    __sync_fetch_and_add(&g_burst_done, 1);
+}
+static void dlive_fn(void *a)
+{
+    (void)a;
+    __sync_fetch_and_add(&g_dran, 1);
+}
+static void *burst_ext(void *a)
+{
+    /* descriptors that came from a stream's memory pool are freed by an external thread */
+    (void)a;
+    for (int i = 0; i < g_nburst; i++)
+        CHK(ABT_thread_free(&g_burst[i]));
+    return NULL;
+}
 static int cmp_u(const void *a, const void *b)
 {
     uintptr_t x = *(const uintptr_t *)a, y = *(const uintptr_t *)b;
@@ -218,8 +247,105 @@ static void scn_mpool(uint64_t seed)
     EV("\"e\":\"Ledger\",\"live\":%ld,\"errors\":%ld,\"allocs\":%d", abtv_ledger_live(), abtv_ledger_errors(), abtv_ledger_allocs() > 0);
     abtv_ledger_track(0);
 }
+/* ---------------------------------------------------------------- scenario "churn"
+ * (free-running mode): ULTs in a pool shared by three streams create tasklets
+ * and free them at once -- the free joins a tasklet that has not run yet, so the
+ * caller yields and is usually resumed on another stream.  Descriptors must go
+ * back to the pool of the stream the caller is on *now*; a descriptor returned
+ * to the unsynchronized local pool of another stream corrupts that pool (two
+ * live tasklets get the same descriptor, or the allocator crashes).  Plain
+ * (non-atomic) pool state can only be raced by real threads, so this scenario
+ * is meaningful in free mode only. */
+#define CH_ULTS 6
+#define CH_TAB 4096
+static void *g_chtab[CH_TAB];
+static volatile int g_chlk;
+static volatile long g_chdup, g_chiters, g_chmoved;
+static int g_chrounds;
+static void ch_lock(void)
+{
+    while (__sync_lock_test_and_set(&g_chlk, 1))
+        ;
+}
+static void ch_unlock(void) { __sync_lock_release(&g_chlk); }
+static void ch_reg(void *h, int on)
+{
+    ch_lock();
+    unsigned k = (unsigned)(((uintptr_t)h >> 6) * 2654435761u) % CH_TAB;
+    for (unsigned i = 0; i < CH_TAB; i++) {
+        unsigned j = (k + i) % CH_TAB;
+        if (on) {
+            if (g_chtab[j] == h)
+                g_chdup++;
+            if (g_chtab[j] == NULL || g_chtab[j] == (void *)1) {
+                g_chtab[j] = h;
+                break;
+            }
+        } else {
+            if (g_chtab[j] == h) {
+                g_chtab[j] = (void *)1;
+                break;
+            }
+            if (g_chtab[j] == NULL)
+                break;
+        }
+    }
+    ch_unlock();
+}
+static void ch_task(void *a) { (void)a; }
+static void ch_ult(void *a)
+{
+    ABT_pool sp = (ABT_pool)a;
+    for (int i = 0; i < g_chrounds; i++) {
+        ABT_thread t[4];
+        int r0 = -1, r1 = -1;
+        ABT_xstream_self_rank(&r0);
+        for (int k = 0; k < 4; k++) {
+            CHK(ABT_task_create(sp, ch_task, NULL, &t[k]));
+            ch_reg((void *)t[k], 1);
+        }
+        for (int k = 0; k < 4; k++) {
+            ch_reg((void *)t[k], 0);
+            CHK(ABT_thread_free(&t[k]));
+        }
+        ABT_xstream_self_rank(&r1);
+        if (r0 != r1)
+            __sync_fetch_and_add(&g_chmoved, 1);
+        __sync_fetch_and_add(&g_chiters, 1);
+    }
+}
+static void scn_churn(void)
+{
+    g_chrounds = (int)opt_long("rounds", 1500);
+    memset(g_chtab, 0, sizeof g_chtab);
+    g_chdup = g_chiters = g_chmoved = 0;
+    CHK(ABT_init(0, NULL));
+    ABT_pool sp;
+    ABT_xstream xs[2];
+    CHK(ABT_pool_create_basic(ABT_POOL_FIFO, ABT_POOL_ACCESS_MPMC, ABT_TRUE, &sp));
+    for (int e = 0; e < 2; e++) {
+        ABT_sched sc;
+        CHK(ABT_sched_create_basic(ABT_SCHED_BASIC, 1, &sp, ABT_SCHED_CONFIG_NULL, &sc));
+        CHK(ABT_xstream_create(sc, &xs[e]));
+    }
+    ABT_thread u[CH_ULTS];
+    for (int i = 0; i < CH_ULTS; i++)
+        CHK(ABT_thread_create(sp, ch_ult, (void *)sp, ABT_THREAD_ATTR_NULL, &u[i]));
+    for (int i = 0; i < CH_ULTS; i++)
+        CHK(ABT_thread_free(&u[i]));
+    for (int e = 0; e < 2; e++) {
+        CHK(ABT_xstream_join(xs[e]));
+        CHK(ABT_xstream_free(&xs[e]));
+    }
+    CHK(ABT_finalize());
+    EV("\"e\":\"Churn\",\"iters\":%ld,\"dup\":%ld,\"moved\":%d", g_chiters, g_chdup, g_chmoved > 0);
+}
 static void scenario(const char *name, uint64_t seed)
 {
+    if (!strcmp(name, "churn")) {
+        scn_churn();
+        return;
+    }
     if (!strcmp(name, "mpool")) {
         scn_mpool(seed);
         return;
@@ -252,6 +378,26 @@ static void scenario(const char *name, uint64_t seed)
     }
     memset(T, 0, sizeof T);
     g_release = 0;
+    int desc = (int)opt_long("desc", 0);
+    g_nburst = g_ndlive = 0;
+    g_burst_done = g_dran = 0;
+    if (desc) {
+        CHK(ABT_pool_create_basic(ABT_POOL_FIFO, ABT_POOL_ACCESS_MPMC, ABT_FALSE, &g_hold));
+        g_nburst = 20 + rnd(44);
+        g_ndlive = 2 + rnd(MAXD - 1);
+        for (int i = 0; i < g_nburst; i++)
+            CHK(ABT_task_create(g_pool[i % g_nes], burst_fn, NULL, &g_burst[i]));
+        pthread_t bt;
+        pthread_create(&bt, NULL, burst_ext, NULL);
+        /* the primary ULT lets its scheduler run the burst */
+        while (g_burst_done < g_nburst) {
+            ABT_thread_yield();
+            abtv_idle_hint();
+        }
+        pthread_join(bt, NULL);
+        for (int i = 0; i < g_ndlive; i++)
+            CHK(ABT_task_create(g_hold, dlive_fn, NULL, &g_dlive[i]));
+    }
     g_nt = 2 + rnd(MAXT - 1);
     int have_ext = rnd(2), have_ult = g_nes > 1 && rnd(2);
     for (int i = 1; i <= g_nt; i++) {
@@ -261,6 +407,8 @@ static void scenario(const char *name, uint64_t seed)
         int c = rnd(3);
         t->req = c == 0 ? CLASSES[rnd((int)(sizeof CLASSES / sizeof *CLASSES))]
                         : c == 1 ? (size_t)(8192 + 8 * rnd(8192)) : (size_t)(16384 + rnd(200000));
+        if (desc && rnd(4))
+            t->user = 0, t->req = 16384; /* default size: the stack comes from the memory pool */
         if (t->user)
             t->req &= ~(size_t)7;
         t->creator = rnd(3);
@@ -289,13 +437,28 @@ static void scenario(const char *name, uint64_t seed)
             abtv_idle_hint();
         }
     /* ranks of all range end points */
-    uintptr_t pts[2 * MAXT];
+    uintptr_t pts[2 * MAXT + 2 * MAXD];
     int np = 0;
     for (int i = 1; i <= g_nt; i++) {
         pts[np++] = T[i].lo;
         pts[np++] = T[i].hi;
     }
+    for (int i = 0; i < g_ndlive; i++) {
+        pts[np++] = (uintptr_t)g_dlive[i];
+        pts[np++] = (uintptr_t)g_dlive[i] + DESC_BYTES;
+    }
     qsort(pts, (size_t)np, sizeof pts[0], cmp_u);
+    for (int i = 0; i < g_ndlive; i++) {
+        uintptr_t lo = (uintptr_t)g_dlive[i], hi = lo + DESC_BYTES;
+        int rlo = 0, rhi = 0;
+        for (int k = 0; k < np; k++) {
+            if (pts[k] < lo)
+                rlo = k + 1;
+            if (pts[k] < hi)
+                rhi = k + 1;
+        }
+        EV("\"e\":\"Desc\",\"u\":%d,\"rlo\":%d,\"rhi\":%d,\"al\":%d", 101 + i, rlo, rhi, (int)(lo % 8));
+    }
     for (int i = 1; i <= g_nt; i++) {
         tinfo_t *t = &T[i];
         int rlo = 0, rhi = 0;
@@ -325,6 +488,19 @@ static void scenario(const char *name, uint64_t seed)
             free(t->ubuf);
         }
         EV("\"e\":\"StackEnd\",\"u\":%d,\"touched\":%d,\"guard\":%d,\"done\":%d", i, t->touched_ok, guard_ok, t->done);
+    }
+    if (desc) {
+        for (int i = 0; i < g_ndlive; i++) {
+            ABT_thread t = ABT_THREAD_NULL;
+            CHK(ABT_pool_pop_thread(g_hold, &t));
+            if (t != ABT_THREAD_NULL)
+                CHK(ABT_self_schedule(t, ABT_POOL_NULL));
+        }
+        for (int i = 0; i < g_ndlive; i++) {
+            CHK(ABT_thread_free(&g_dlive[i]));
+            EV("\"e\":\"DescEnd\",\"u\":%d,\"ran\":%d", 101 + i, g_dran == g_ndlive);
+        }
+        CHK(ABT_pool_free(&g_hold));
     }
     for (int e = 1; e < g_nes; e++) {
         CHK(ABT_xstream_join(g_xs[e]));
